@@ -104,7 +104,13 @@ func genGrowth(seed uint64, thorough bool) *Scenario {
 	}
 	scn.Checkpoints = []int{N, 2 * N, 4 * N, 8 * N}
 	if purge {
-		// let background work finish, then invalidate every URI of the cycle
+		// let background work finish, then invalidate every URI of the cycle - in some runs after an entry or two
+		// were removed from the store by someone else, so that an index names entries that are gone
+		if g.chance(40) {
+			for i, n := 0, 1+g.IntN(2); i < n; i++ {
+				cl.Ops = append(cl.Ops, Op{Admin: "evict", AdminArg: g.IntN(1 << 20), ThinkNs: int64(time.Hour)})
+			}
+		}
 		for i := 0; i < U; i++ {
 			cl.Ops = append(cl.Ops, Op{Res: i, Method: "POST", ThinkNs: int64(time.Hour)})
 		}
